@@ -30,3 +30,19 @@ Proof. exact inline_blocks_refuted. Qed.
 
 Theorem c15_served_stable : forall spawns spins s j, is_served s j = true -> is_served (loop_step spawns spins s) j = true.
 Proof. exact served_stable. Qed.
+
+(* What the per-connection (resp. per-peer) code paths share: nothing but the multiplexer session. The translator lists every lock,
+   wait-group, channel send / receive and select in these functions (Gen/SyncOps.v); a lock or a counting channel added to one of them
+   is what makes one connection wait for another, and breaks this obligation even when no scenario produces the contention. The only
+   lock is the client's upstream lock around establishing the shared physical session (bounded by the handshake deadline: C16). *)
+From SA Require Gen.SyncOps.
+From Coq Require Import String.
+Theorem c15_no_shared_synchronisation :
+  Gen.SyncOps.sync_socket_accept_connection = ""%string /\
+  Gen.SyncOps.sync_packet_accept_connection = ""%string /\
+  Gen.SyncOps.sync_http_endpoint_handler = ""%string /\
+  Gen.SyncOps.sync_new_server_connection = ""%string /\
+  Gen.SyncOps.sync_new_client_connection = ""%string /\
+  Gen.SyncOps.sync_listener_accept = "recv:l.shutdown;recv:l.shutdown;select;select"%string.
+Proof. repeat split; reflexivity. Qed.
+Print Assumptions c15_no_shared_synchronisation.
